@@ -57,6 +57,12 @@ def shard_main(cid):
     """Entry point of a worker process: spec on stdin, Monitor dump on stdout."""
     import faulthandler
     faulthandler.enable()
+    try:
+        import resource
+        lim = int(os.environ.get("VERIF_SHARD_MEM_GB", "6")) << 30
+        resource.setrlimit(resource.RLIMIT_AS, (lim, lim))     # a runaway loop in the code under test ends in MemoryError, not in swap
+    except Exception:
+        pass
     spec = json.loads(sys.stdin.read())
     wd = spec.get("_watchdog_s")
     if wd:
